@@ -6,7 +6,7 @@ only correct one)."""
 
 import extras
 
-MODEL_FILES = ["Bytes.v", "Utf8.v", "Ast.v", "Fill.v", "Msg.v", "Api.v"]
+MODEL_FILES = ["Bytes.v", "Utf8.v", "Ast.v", "Fill.v", "Msg.v", "Lexer.v", "Parser.v", "Api.v"]
 
 TRUSTED_BASE = [
     "Coq 8.16.1 kernel (coqc, full .vo build; vm_compute used only where a finite sweep is lifted by forallb_forall; no native_compute)",
@@ -17,6 +17,7 @@ TRUSTED_BASE = [
     "modelled, not verified: Go language primitives (integer conversions, float32(), slicing, range over strings), strconv/fmt float text (oracle, rendered by the harness), unicode tables beyond the IsSpace set, the Go runtime",
 ]
 
+SML_PROOFS = ["SmlNumbers.v", "SmlProofs.v"]
 AST_PROOFS = ["FloatProofs.v", "AstProofs.v", "FillProofs.v"]
 WIRE_PROOFS = ["HeaderProofs.v", "WireSpec.v", "WireLemmas.v", "WireValues.v", "WireEnc.v", "WireDec.v", "MsgProofs.v"]
 
@@ -50,6 +51,45 @@ PROPS = {
         decisive_why="C14_layout_*, C14_echo: the header layout is stated byte by byte; C14_type_total: the type of every (PType, SType) pair; C14_decode",
         exhaustive=True,
         rule="all 65,536 session ids through the constructors, all 256 status and reason codes, all 65,536 (PType, SType) pairs through Type() (and a ninth of them, plus PType 0..2 completely, through the decoder); distinct = distinct case texts",
+    ),
+    "C04": dict(
+        prop_file="props/C04.v", proof_files=SML_PROOFS, tie_files=["TablesTie.v"],
+        suites=["C04"],
+        decisive=[],
+        assumptions=["float text is strconv's (FormatFloat/ParseFloat), an oracle of the model rendered by the harness",
+                     "C04_print_parse is not proved (only the literal level): decided by monitors and correspondence"],
+    ),
+    "C05": dict(
+        prop_file="props/C05.v", proof_files=SML_PROOFS, tie_files=["TablesTie.v"],
+        suites=["C05"],
+        decisive=["n", "errs", "kind", "str", "bytes"],
+        decisive_why="C05_int/C05_uint/C05_bin/C05_quoted: the model stores the value the literal denotes or records an error; a different stored value or a missing error on the library side is a silent substitution",
+    ),
+    "C06": dict(
+        prop_file="props/C06.v", proof_files=SML_PROOFS, tie_files=["TablesTie.v"],
+        suites=["C06"],
+        decisive=["kind"],
+        decisive_why="an escaping panic (kind P) where the model returns normally",
+        extra=extras.hostile_sml_stage,
+        assumptions=["partial: time (the real lexer is quadratic: lineColumn and per-token regexp compilation) and the Go stack are not modelled; the worker's watchdog and TotalAlloc bound are the observation"],
+    ),
+    "C08": dict(
+        prop_file="props/C08.v", proof_files=SML_PROOFS, tie_files=["TablesTie.v"],
+        suites=["C08"],
+        decisive=[],
+    ),
+    "C15": dict(
+        prop_file="props/C15.v", proof_files=SML_PROOFS, tie_files=["TablesTie.v"],
+        suites=["C15"],
+        decisive=["n", "errs", "kind"],
+        decisive_why="C15_iff + C15_form_*: the model reports a size error exactly when the count is outside the declared bounds",
+        exhaustive=True,
+        rule="exhaustive grid: 14 item types x 4 declaration forms (+ a spaced form) x lower, upper, count in 0..5; overflowing bounds; ASCII variables: 5 declaration forms x bounds 0..4 x fill lengths 0..6",
+    ),
+    "C19": dict(
+        prop_file="props/C19.v", proof_files=SML_PROOFS, tie_files=["TablesTie.v"],
+        suites=["C19"],
+        decisive=[],
     ),
     "C07": dict(
         prop_file="props/C07.v", proof_files=WIRE_PROOFS, tie_files=["TablesTie.v"],
